@@ -69,14 +69,50 @@ func mkRec2(pad, priv int, k string) any {
 	return Rec{Pad: pad, priv: priv, K: k}
 }
 
+// named number types that have a String method (time.Duration, stringer enums, money types are like this)
+type SDur int64
+type SCents int
+type SLevel uint8
+type SRatio float64
+
+func (d SDur) String() string   { return fmt.Sprintf("%dns", int64(d)) }
+func (c SCents) String() string { return fmt.Sprintf("%d.%02d", int(c)/100, int(c)%100) }
+func (l SLevel) String() string { return []string{"LOW", "MID", "HIGH"}[int(l)%3] }
+func (r SRatio) String() string { return fmt.Sprintf("%.1f%%", float64(r)*100) }
+
+type NFloat32 float32
+
+// a private field BEFORE an exported field whose name differs from it in case only, and the other way round
+type UnexpDup struct {
+	id   int
+	ID   string
+	Name string
+}
+type UnexpDup2 struct {
+	ID   string
+	id   int
+	Name string
+}
+
+// a struct that embeds a pointer to another struct (the promoted fields are not keys of the outer one)
+type EmbInner struct {
+	CreatedBy string
+	Revision  int
+}
+type EmbOuter struct {
+	*EmbInner
+	ID int
+}
+
 // TV is the tagged value both sides read.
 type TV struct {
-	T   string // nil bool str int f64 dec ptr slice array map struct func chan unexp
-	N   int    // named type flag
-	K   string // int kind
-	V   any    // payload
-	C   string // decimal coefficient
-	E   string // decimal exponent
+	T   string   // nil bool str int f64 dec ptr slice array map struct func chan unexp
+	N   int      // named type flag (int: 2 = named with a String method; f64: 2 = float32, 3 = named float32, 4 = named float64 with a String method)
+	W   [][2]int // "win": the windows
+	K   string   // int kind
+	V   any      // payload
+	C   string   // decimal coefficient
+	E   string   // decimal exponent
 	Nil int
 	EI  int    // element type is interface
 	KK  string // map key kind: str named iface
@@ -150,7 +186,12 @@ func build(t *TV) (reflect.Value, bool) {
 		}
 		return reflect.ValueOf(string(b)), true
 	case "int":
-		typ := intTypes[t.K][t.N]
+		var typ reflect.Type
+		if t.N == 2 { // named, with a String method: int64 -> SDur, int -> SCents, uint8 -> SLevel
+			typ = map[string]reflect.Type{"int64": reflect.TypeOf(SDur(0)), "int": reflect.TypeOf(SCents(0)), "uint8": reflect.TypeOf(SLevel(0))}[t.K]
+		} else {
+			typ = intTypes[t.K][t.N]
+		}
 		v := reflect.New(typ).Elem()
 		if strings.HasPrefix(t.K, "u") {
 			u, _ := strconv.ParseUint(t.V.(string), 10, 64)
@@ -163,8 +204,15 @@ func build(t *TV) (reflect.Value, bool) {
 	case "f64":
 		bits, _ := strconv.ParseUint(t.V.(string), 16, 64)
 		f := math.Float64frombits(bits)
-		if t.N == 1 {
+		switch t.N {
+		case 1:
 			return reflect.ValueOf(NFloat64(f)), true
+		case 2: // float32 (the bits are those of the widened value)
+			return reflect.ValueOf(float32(f)), true
+		case 3:
+			return reflect.ValueOf(NFloat32(f)), true
+		case 4: // named float64 with a String method
+			return reflect.ValueOf(SRatio(f)), true
 		}
 		return reflect.ValueOf(f), true
 	case "dec":
@@ -297,6 +345,14 @@ func build(t *TV) (reflect.Value, bool) {
 			return reflect.ValueOf(UnexpOnly{hidden: geti(fs[0])}), true
 		case "A":
 			return reflect.ValueOf(UnexpA{A: geti(fs[0]), a: geti(fs[1])}), true
+		case "D":
+			return reflect.ValueOf(UnexpDup{id: geti(fs[0]), ID: unhx(fs[1].V.(string)), Name: unhx(fs[2].V.(string))}), true
+		case "D2":
+			return reflect.ValueOf(UnexpDup2{ID: unhx(fs[0].V.(string)), id: geti(fs[1]), Name: unhx(fs[2].V.(string))}), true
+		case "E": // fs: [CreatedBy str, Revision int, ID int]; "E0": the embedded pointer is nil, fs: [ID int]
+			return reflect.ValueOf(EmbOuter{EmbInner: &EmbInner{CreatedBy: unhx(fs[0].V.(string)), Revision: geti(fs[1])}, ID: geti(fs[2])}), true
+		case "E0":
+			return reflect.ValueOf(EmbOuter{ID: geti(fs[0])}), true
 		case "F":
 			return reflect.ValueOf(UnexpFirst{hidden: geti(fs[0]), A: geti(fs[1]), K: unhx(fs[2].V.(string))}), true
 		case "R1":
@@ -305,6 +361,18 @@ func build(t *TV) (reflect.Value, bool) {
 			return reflect.ValueOf(mkRec2(geti(fs[0]), geti(fs[1]), unhx(fs[2].V.(string)))), true
 		}
 		return reflect.ValueOf(UnexpK{K: unhx(fs[0].V.(string)), k: unhx(fs[1].V.(string))}), true
+	case "win":
+		// V: the elements of ONE backing array; W: [lo,hi] pairs - the value is a []any whose elements are the []any windows
+		// base[lo:hi] of that array (they share it, and all but the last have spare capacity behind them)
+		base := make([]any, 0, len(t.V.([]*TV)))
+		for _, e := range t.V.([]*TV) {
+			base = append(base, buildAny(e))
+		}
+		out := make([]any, 0, len(t.W))
+		for _, w := range t.W {
+			out = append(out, base[w[0]:w[1]])
+		}
+		return reflect.ValueOf(out), true
 	case "func":
 		return reflect.ValueOf(func() {}), true
 	case "chan":
@@ -349,6 +417,8 @@ func (t *TV) MarshalJSON() ([]byte, error) {
 		m["v"] = t.V
 	case "unexp":
 		m["k"], m["v"] = t.K, t.V
+	case "win":
+		m["v"], m["w"] = t.V, t.W
 	}
 	return json.Marshal(m)
 }
@@ -419,6 +489,15 @@ func decodeTV(raw json.RawMessage) *TV {
 			fs = append(fs, [3]any{k, e, decodeTV(a[2])})
 		}
 		t.V = fs
+	case "win":
+		var arr []json.RawMessage
+		json.Unmarshal(m["v"], &arr)
+		xs := []*TV{}
+		for _, a := range arr {
+			xs = append(xs, decodeTV(a))
+		}
+		t.V = xs
+		json.Unmarshal(m["w"], &t.W)
 	case "unexp":
 		t.K = str("k")
 		var arr []json.RawMessage
@@ -482,7 +561,9 @@ func canonV(v reflect.Value) string {
 		return fmt.Sprintf("%si:%s:%d", named, v.Kind().String(), v.Int())
 	case reflect.Uint, reflect.Uint8, reflect.Uint16, reflect.Uint32, reflect.Uint64:
 		return fmt.Sprintf("%si:%s:%d", named, v.Kind().String(), v.Uint())
-	case reflect.Float64, reflect.Float32:
+	case reflect.Float32: // never the plain float64 type: shown like a named float (the model carries one flag for "not float64 itself")
+		return "nf:" + fcanon(v.Float())
+	case reflect.Float64:
 		return named + "f:" + fcanon(v.Float())
 	case reflect.Pointer:
 		if v.CanInterface() {
@@ -545,4 +626,9 @@ func canonV(v reflect.Value) string {
 	return "?" + v.Kind().String()
 }
 
-func tvUnexp(k string, fs ...*TV) *TV { return &TV{T: "unexp", K: k, V: fs} }
+func tvUnexp(k string, fs ...*TV) *TV   { return &TV{T: "unexp", K: k, V: fs} }
+func tvWin(base []*TV, w ...[2]int) *TV { return &TV{T: "win", V: base, W: w} }
+func tvSInt(k string, v string) *TV     { return &TV{T: "int", K: k, N: 2, V: v} }
+func tvF32(f float32, n int) *TV {
+	return &TV{T: "f64", N: n, V: fmt.Sprintf("%016x", math.Float64bits(float64(f)))}
+}
